@@ -126,6 +126,10 @@ theorem opcode_state_matches :
     write when the entry already exists is checked dynamically (registry sizes around every simulation). -/
 theorem process_registries_match : BMV.Gen.OpcodeState.pkgGlobals = declaredRegistries := by decide
 
+/-- clock dependence: the calls of package time in pkg/procbuilder, pkg/bondmachine, pkg/simbox and
+    pkg/bmnumbers are exactly the declared ones (none inside a simulation step) -/
+theorem clock_sites_match : BMV.Gen.OpcodeState.clockSites = declaredClockSites := by decide
+
 /-! ### non-vacuity -/
 
 example : Complete 3 [2, 0, 1] := by
